@@ -121,7 +121,8 @@ func ops() []op {
 			}
 		}
 	}
-	for _, s := range gen.NonEmptySubsets([]string{"a", "b", "c", "x"}) {
+	nearRemovals := [][]string{{"a "}, {"A"}, {" "}, {"a ", "a"}, {"c "}, {"B"}}
+	for _, s := range append(gen.NonEmptySubsets([]string{"a", "b", "c", "x"}), nearRemovals...) {
 		s := s
 		out = append(out, op{Name: "RemoveNodes(" + strings.Join(s, ",") + ")", Class: "remove", apply: func(lib []*sbom.NodeList, cur *sbom.NodeList) (*sbom.NodeList, *engine.Violation, bool) {
 			before := gen.ModelOf(cur)
